@@ -515,3 +515,40 @@ def no_shared_mutable_class_state(chk, rule: str, roots=('processes.Process',)) 
                 chk.ob(rule, c.qualname, fresh, f'{c.name}.{attr} is a mutable object at class level and is mutated in place ({f0.short}): every instance must get its own in __init__ / init() on every path'
                        + ('' if fresh else ' -- it does not: all instances share the one object, what one process registers is run / seen by the others'), node=n0, kind=f'class-level-mutable:{attr}', expr=attr)
     chk.ob(rule, 'processes.Process', True, f'{n_seen} mutable class-level default(s) in the Process hierarchy examined', kind='class-level-mutable-scan')
+
+
+# ---------------------------------------------------------------------- anchor attributes
+# The private attributes the rules of a property are written against.  If one of them is no longer STORED anywhere in its class (it was folded into a holder object, a
+# tuple, a property computed from something else), the rules cannot be translated: the check says so (analysis error, exit 2) instead of judging code it cannot read.
+_SM, _P, _CA = 'base.state_machine.StateMachine', 'processes.Process', 'futures.CancellableAction'
+_FLAGS_SM = [(_SM, '_state'), (_SM, '_transitioning'), (_SM, '_transition_failing')]
+_FLAGS_P = [(_P, '_stepping'), (_P, '_interrupt_action'), (_P, '_pausing'), (_P, '_killing'), (_P, '_paused')]
+ANCHOR_ATTRS = {
+    'C01': _FLAGS_SM + [(_CA, '_action')], 'C02': _FLAGS_SM + _FLAGS_P + [(_CA, '_action')], 'C03': _FLAGS_SM + _FLAGS_P + [(_CA, '_action')],
+    'C04': _FLAGS_P + [(_CA, '_action'), ('process_states.Waiting', '_waiting_future')], 'C05': _FLAGS_P + [(_CA, '_action'), ('process_states.Waiting', '_waiting_future')],
+    'C06': _FLAGS_P + [('process_states.Waiting', '_waiting_future')], 'C09': [('workchains._Conditional', '_predicate')], 'C13': [('process_states.Waiting', '_waiting_future')],
+    'C17': [('process_comms.ProcessLauncher', '_persister'), ('process_comms.ProcessLauncher', '_loader'), ('process_comms.ProcessLauncher', '_load_context')],
+    'C20': [(_CA, '_action')],
+}
+
+
+def need_anchor_attrs(prog, pid: str) -> None:
+    import ast as _ast
+    from ..model import AnalysisError
+    for cq, attr in ANCHOR_ATTRS.get(pid, []):
+        try:
+            c = prog.cls(cq)
+        except AnalysisError:
+            continue   # (a vanished class is reported by the rule that asks for it)
+        stored = False
+        for n in _ast.walk(c.node):
+            if isinstance(n, _ast.Attribute) and n.attr == attr and isinstance(n.ctx, _ast.Store) and isinstance(n.value, _ast.Name) and n.value.id in ('self', 'cls'):
+                stored = True
+            elif isinstance(n, _ast.Call) and isinstance(n.func, _ast.Name) and n.func.id == 'setattr' and len(n.args) >= 2 and isinstance(n.args[1], _ast.Constant) and n.args[1].value == attr:
+                stored = True
+        for st in c.node.body:
+            if isinstance(st, (_ast.Assign, _ast.AnnAssign)) and any(isinstance(t, _ast.Name) and t.id == attr for t in (st.targets if isinstance(st, _ast.Assign) else [st.target])):
+                stored = stored or (isinstance(st, _ast.Assign) or st.value is not None)
+        if not stored:
+            raise AnalysisError(f'anchor attribute {c.name}.{attr} is no longer stored anywhere in its class (folded into another object or computed): the rules written '
+                                f'against it cannot be translated, the check cannot vouch for the property')
